@@ -763,7 +763,17 @@ def gc_suite(seed, tier):
     for i, plan in enumerate(plans):
         rnd = random.Random(f"{seed}/lay32/{plan}/{i}")
         progs.append(gc_program(plan, rnd, rounds=4 if tier == "quick" else 12, workers=1 if i % 2 == 0 else 4))
-    return progs
+    return progs + gc_corpus()
+
+
+def gc_corpus():
+    """Minimised past failures (run in both tiers)."""
+    # fixed f02f99c: PageProtect gave fully freed chunks back to the shared pool still PROT_NONE; the common large object space
+    # (no protection in its page resource) then got such a chunk and died with SIGSEGV zeroing its first grant
+    pp = ["alloc 0 0 1 0 8 0 Default 63", "vmroot 255 0", "root 0 63 null",
+          "alloc 0 1 0 7340032 8 0 Default 1", "root 0 1 null", "gc 0 1"] + probe_ops() + \
+         ["alloc 0 2 0 7340032 8 0 Los 2", "gc 0 1"] + probe_ops() + ["root 0 2 null", "gc 0 1", "gc 0 1"] + probe_ops()
+    return [LProgram("PageProtect", pp, heap=192 * MB, workers=1, tag="lay32/corpus/pageprotect-chunk-back-to-pool")]
 
 
 def parse_regions(res):
